@@ -85,6 +85,8 @@ inductive Step
   | updateInst (k : Key) (v : Int)
   /-- `inst.destroySelf()` on such an instance (a DELETE that matches no row is not an error) -/
   | deleteInst (k : Key)
+  /-- `list(Cls.select())` inside the body: a read through the transaction, no effect on the rows -/
+  | select
   deriving DecidableEq, Repr
 
 structure Body where
@@ -100,6 +102,7 @@ def applyStep (v : View) : Step → Except Exc View
   | .delete k => if (v k).isSome then .ok (upd v k none) else .error notFoundExc
   | .updateInst k x => .ok (if (v k).isSome then upd v k (some x) else v)
   | .deleteInst k => .ok (upd v k none)
+  | .select => .ok v
 
 def applySteps (v : View) : List Step → Except Exc View
   | [] => .ok v
